@@ -57,7 +57,9 @@ func GetJsonDataType(t dsl.Type) JsonDataType {
 		case dsl.ComplexFloat32, dsl.ComplexFloat64:
 			return JsonArray
 		case dsl.Date, dsl.Time, dsl.DateTime:
-			return JsonNumber
+			// These are written as JSON strings. JsonNumber is kept so that unions
+			// that are already written with tags (e.g. [date, int]) keep their format.
+			return JsonString | JsonNumber
 		default:
 			panic(fmt.Sprintf("unexpected primitive type %s", td))
 		}
